@@ -59,9 +59,12 @@ ALPHABET = list(OPS)
 # a recursive definition and a non-cyclic one that refers to it through the same kind of (non-required) member: the cycle breaker rewrites the
 # shared Option<Node> in place; whether Other sees the rewritten type must not depend on the batching. (Only in the ordering sub-alphabet.)
 D7 = {"Node": obj({"next": {"$ref": "#/definitions/Node"}, "v": INT}, ["v"]), "Other": obj({"n": {"$ref": "#/definitions/Node"}, "w": STR})}
+# an UNNAMED type (Vec<String>): what a repeated addition returns is decided by the structural lookup table alone
+OPS.update({"T10": {"type": {"type": "array", "items": STR}, "hint": None},
+            "T11": {"type": obj({"names": {"type": "array", "items": STR}, "n": {"type": ["integer", "null"]}}), "hint": "Holder11"}})
 OPS.update({"R7": {"refs": D7}, "R7n": {"refs": {"Node": D7["Node"]}}, "R7o": {"refs": {"Other": D7["Other"]}},
             "T9": {"type": obj({"n": {"$ref": "#/definitions/Node"}, "w": STR}), "hint": "Other"}})
-SUB6 = ["R1", "R3", "T1", "T3", "T4", "T5"]
+SUB6 = ["R1", "R3", "T1", "T3", "T4", "T5", "T10", "T11"]
 SUB_ORDER = ["R6", "R6r", "R6z", "R6a", "R2", "T1", "R7", "R7n", "R7o", "T9"]
 SUB_ROOTS = ["ROOT3", "T6", "ROOT2", "T1", "R2", "T7", "T8"]
 DEFINES = {"R7": {"Node", "Other"}, "R7n": {"Node"}, "R7o": {"Other"}, "R14": set(D1) | set(D4), "R6": set(D6), "R6r": set(D6), "R6z": {"Zest"}, "R6a": {"Apple"}, "R5": set(D5), "R1": set(D1), "R2": set(D2), "R3": set(D3), "R4": set(D4), "R12": set(D12), "ROOT1": set(D1) | {"Root1"}, "ROOT2": set(D2) | {"Root2"},
@@ -75,7 +78,7 @@ INDEPENDENT = {frozenset(p) for p in [("R1", "R2"), ("R1", "R3"), ("R2", "R3"), 
                                       ("R5", "R2"), ("R5", "R3"), ("R5", "ROOT2"), ("R5", "ROOT3"), ("R5", "T5"), ("R5", "T1"),
                                       ("ROOT1", "ROOT2"), ("ROOT1", "R2"), ("ROOT2", "R1"), ("ROOT2", "R3"), ("ROOT1", "ROOT3"), ("ROOT2", "ROOT3"),
                                       ("R1", "ROOT3"), ("R2", "ROOT3"), ("R3", "ROOT3"), ("R12", "ROOT3"), ("ROOT3", "T5"), ("ROOT3", "T1")]}
-TYPE_OPS = {"T1", "T2", "T3", "T4", "T5", "T6", "T7", "T8", "T9"}
+TYPE_OPS = {"T1", "T2", "T3", "T4", "T5", "T6", "T7", "T8", "T9", "T10", "T11"}
 
 
 def enabled(hist, op):
@@ -154,6 +157,7 @@ def execute(cases_, tier, seed):
         ops = a["ops"]
         first_seen = {}
         prev_items = None
+        prev_ntypes = None
         prev_idents = {}
         dead = False
         for i, (name, o) in enumerate(zip(h, ops)):
@@ -247,13 +251,20 @@ def execute(cases_, tier, seed):
                     if prev_idents[name][0] != ident:
                         res.violations.append(Violation(c["key"], "I2-ident-differs", "%s: repeating %s returns %s, first time %s" % (h, name, ident, prev_idents[name][0]), c,
                                                         expected=prev_idents[name][0], observed=ident, features=dict(feats, op=name)))
+                    if prev_idents[name][1] != o["type_id"]:
+                        res.violations.append(Violation(c["key"], "I2-id-differs", "%s: repeating %s returns type id %s, first time %s" % (h, name, o["type_id"], prev_idents[name][1]), c,
+                                                        expected=prev_idents[name][1], observed=o["type_id"], features=dict(feats, op=name)))
+                    if prev_ntypes is not None and len(types) != prev_ntypes:
+                        res.violations.append(Violation(c["key"], "I2-adds-types", "%s: repeating %s grows the type table from %d to %d entries" % (h, name, prev_ntypes, len(types)), c,
+                                                        expected=prev_ntypes, observed=len(types), features=dict(feats, op=name)))
                     if prev_items is not None and sorted(map(tuple, items)) != sorted(map(tuple, prev_items)):
                         added = sorted(set(map(tuple, items)) - set(map(tuple, prev_items)))
                         res.violations.append(Violation(c["key"], "I2-adds-definitions", "%s: repeating %s adds items %s" % (h, name, added[:3]), c,
                                                         expected="no new definitions", observed=added[:10], features=dict(feats, op=name)))
             if name in TYPE_OPS and name not in prev_idents:
-                prev_idents[name] = (types.get(o["type_id"], {}).get("ident"),)
+                prev_idents[name] = (types.get(o["type_id"], {}).get("ident"), o["type_id"])
             prev_items = items
+            prev_ntypes = len(types)
         if dead:
             continue
         final = sorted(map(tuple, prev_items))
